@@ -152,6 +152,9 @@ type Handle struct {
 	// a non-nil error is returned to the caller and the operation has no effect (world-specific
 	// fault decisions, e.g. "fail the k-th read of a sync").
 	Intercept func(kind, canonName string) error
+	// InterceptReader, when set, is asked for every successful get/getrange; ok=true makes the returned
+	// reader fail after failAfter bytes (the request succeeded, the body breaks off).
+	InterceptReader func(kind, canonName string, size int) (failAfter int, ok bool)
 
 	mu      sync.Mutex
 	crashed bool
@@ -424,6 +427,13 @@ func (h *Handle) wrapReader(oc *opCtx, rc io.ReadCloser, size int64) io.ReadClos
 		return io.NopCloser(bytes.NewReader(b))
 	}
 	fr := &faultyReader{r: bytes.NewReader(b)}
+	if h.InterceptReader != nil {
+		if n, ok := h.InterceptReader(oc.op.Kind, oc.op.Name, len(b)); ok {
+			fr.fail = true
+			fr.left = n
+			return fr
+		}
+	}
 	if oc.sim.Fault("short:"+h.Actor, oc.id) {
 		fr.fail = true
 		fr.left = oc.sim.Pick("short", oc.id, len(b)+1)
